@@ -59,6 +59,16 @@ const (
 
 var (
 	methods = []string{"basic", "post", "none", "private_key_jwt"}
+	// registrations whose AuthMethod() is NOT one of the four constants the library implements (part
+	// "unimplemented-auth-method"): two registered IANA methods the library has no code for - one that keeps a
+	// shared secret on file (client_secret_jwt: the HMAC key), one that does not (tls_client_auth) - and the
+	// empty / unset method (what a storage returns that never filled the field in), with and without a secret.
+	unimplemented = []unimplT{
+		{name: "client_secret_jwt", method: "client_secret_jwt", secret: true},
+		{name: "tls_client_auth", method: "tls_client_auth"},
+		{name: "unset+secret", method: "", secret: true},
+		{name: "unset", method: ""},
+	}
 	// grant-type shapes of the registration (c=code r=refresh d=device x=token-exchange
 	// s=client_credentials (service user) b=jwt-bearer)
 	shapes = map[string]string{
@@ -84,13 +94,37 @@ var (
 		"token:implicit", "token:unknown", "token:missing", "introspect", "revoke", "devauth"}
 )
 
-func buildSpace(full bool) engine.Space {
+type unimplT struct {
+	name   string
+	method oidc.AuthMethod // what Client.AuthMethod() returns
+	secret bool            // a secret is on file for the client
+}
+
+func unimplOf(name string) *unimplT {
+	for i := range unimplemented {
+		if unimplemented[i].name == name {
+			return &unimplemented[i]
+		}
+	}
+	return nil
+}
+
+func unimplNames() []string {
+	out := []string{}
+	for _, u := range unimplemented {
+		out = append(out, u.name)
+	}
+	return out
+}
+
+// buildSpace: the space of the main part (ms = methods) and of part "unimplemented-auth-method" (ms = unimplNames()).
+func buildSpace(full bool, ms []string) engine.Space {
 	pres := slices.Clone(presQuick)
 	if full {
 		pres = append(pres, presMore...)
 	}
 	return engine.Space{
-		engine.D("method", methods...),
+		engine.D("method", ms...),
 		engine.D("grants", shapeNames...),
 		engine.D("app", "web", "native"),
 		engine.D("keys", "by-method", "inverse"), // by-method: only a private_key_jwt client has a key on file
@@ -148,6 +182,9 @@ func decode(sp engine.Space, v engine.Vec) caseT {
 	c.grants = grantsOf(c.shape)
 	c.hasKeys = (c.method == "private_key_jwt") == (c.keys == "by-method")
 	c.hasSecret = c.method == "basic" || c.method == "post"
+	if u := unimplOf(c.method); u != nil {
+		c.hasSecret = u.secret
+	}
 	c.routerIdx = slices.Index(rig.Routers, c.router)
 	return c
 }
@@ -306,6 +343,12 @@ func registration(r *rig.Rig, c caseT) {
 		cl.Method = oidc.AuthMethodNone
 	case "private_key_jwt":
 		cl.Method = oidc.AuthMethodPrivateKeyJWT
+	default:
+		u := unimplOf(c.method)
+		cl.Method = u.method
+		if u.secret {
+			cl.Secret = secret
+		}
 	}
 	cl.AppType = op.ApplicationTypeWeb
 	if c.app == "native" {
@@ -510,6 +553,22 @@ func authClass(c caseT) (string, string) {
 			return aOpen, "private_key_jwt-disabled-in-provider" // the statement has no "if enabled" for assertions
 		}
 		return aOK, "assertion"
+	}
+	if u := unimplOf(c.method); u != nil {
+		// The registered method is none of "secret via Basic / POST, private_key_jwt assertion, no secret for a
+		// public client": nothing this alphabet can present authenticates the client "in the way it is
+		// registered". No credential and a wrong secret are refusals the statement names; with the secret that is
+		// on file for the client the statement is silent (a framework may treat an unknown method like a secret
+		// method or refuse it altogether).
+		switch p {
+		case "id-only":
+			return aNoCreds, "unimplemented-method:no-credential"
+		case "basic-right", "basic-pct", "post-right":
+			if u.secret {
+				return aOpen, "unimplemented-method:right-secret"
+			}
+		}
+		return aBad, "unimplemented-method:wrong-secret" // includes any secret for a client that has none on file
 	}
 	switch c.method {
 	case "basic", "post":
@@ -878,19 +937,21 @@ func TestCheck(t *testing.T) {
 		return
 	}
 	full := c.Thorough() || c.ReplayFile != ""
-	sp := buildSpace(full)
+	sp := buildSpace(full, methods)
 	c.SetRule("E1: full product over registration(method x grant shape x app type x keys on file) x presentation x operation x router, " +
 		"crossed with at most one (quick) / all (thorough) of the six provider flags / storage capabilities switched off; quick adds all 64 flag combinations x method x presentation x operation x router at the all-grants web registration; " +
 		"distinct = distinct (oracle clause, observed outcome class). " +
-		"Part identity-source (E1): full product caller(7: method x right/wrong credential) x grants of the caller(2) x contradictory client_id form parameter(11; thorough 16) x " +
+		"Part identity-source (E1): full product caller(7: method x right/wrong credential) x grants of the caller(2) x contradictory client_id form parameter(13; thorough 18) x " +
 		"owner of the redeemed artifact(2) x position of the parameter(6: after/before the own one in the body, URL query, own one in the query, all in the query x2) x operation(8) x router(2), " +
-		"crossed with at most one (quick) / all (thorough) of application type inverse, AuthMethodPost off, AuthMethodPrivateKeyJWT off; every stored device authorization is approved and polled by all 8 registered clients")
+		"crossed with at most one (quick) / all (thorough) of application type inverse, AuthMethodPost off, AuthMethodPrivateKeyJWT off; every stored device authorization is approved and polled by all 10 registered clients. " +
+		"Part unimplemented-auth-method (E1): the enumeration of the first part for 4 registrations whose AuthMethod() is outside the implemented constants (client_secret_jwt with a secret on file, tls_client_auth without, the empty method with and without a secret); thorough: full product with the channel x at most two of the six flags off")
 	c.Assume(
 		"refstore is the storage (trusted): secret authentication fails for clients without a secret; service users are the clients of the client_credentials grant",
 		"a private_key_jwt client never has a secret on file; a public client never has a secret on file",
 		"Either (DESIGN 1.6): channel of a correct secret; assertion by a keyed non-private_key_jwt client at introspection; exact status >= 400; exact error code among the registered OAuth codes",
 		"Either (decided while building, demanding less): public client sending a superfluous secret; valid assertion with wrong/missing client_assertion_type; private_key_jwt disabled in the provider; jwt-bearer grant by a keyed client not registered for it (issuer is identified by the storage key table); credential quality at /device_authorization for a known client",
 		"panics / double responses are outcome classes of C09 and satisfy a refusal obligation when nothing was issued",
+		"unimplemented auth method (client_secret_jwt, tls_client_auth, empty): no presentation of the alphabet authenticates such a client in the way it is registered; no credential, a wrong secret, any secret when none is on file, an assertion (except at introspection: Either as for every keyed client) must be refused; Either: the secret that is on file (a framework may treat an unknown method as a secret method), every credential at /device_authorization (as for the implemented methods)",
 		"identity-source: the clients an endpoint acted for are read from the storage (client of created tokens / refresh tokens / device authorizations, clientID argument of RevokeToken, SetIntrospectionFromToken, StoreDeviceAuthorization)",
 		"identity-source, decided (DESIGN 5.5 item 2): beside a VALID Basic header or client assertion a client_id form parameter may be refused or ignored but the named client must never be acted for (also at /device_authorization, where the statement itself only asks for a known client with the device grant; acting for a named client WITHOUT the device grant is reported under the statement's own clause grant-not-registered)",
 		"identity-source, Either (demanding less): with a form-only or failed presentation (body secret, bare client_id, wrong secret, foreign assertion) the request names two clients and each is judged on its own: a named PUBLIC client may be served (superfluous credential), any known client may be named at /device_authorization, a named client whose own correct secret is in the form may be served; serving a request that carries a contradictory or a redundant own client_id is never demanded",
@@ -908,7 +969,11 @@ func TestCheck(t *testing.T) {
 	if devOnly != "" && devOnly != "client-auth-and-grant" {
 		// development aid (never set by vcheck): run one part only; the run is reported as not exhaustive
 		c.Cap("development run: only part " + devOnly)
-		runIdentityPart(t, c)
+		if devOnly == "unimplemented-auth-method" {
+			runUnimplementedPart(t, c, full)
+		} else {
+			runIdentityPart(t, c)
+		}
 		c.Finish()
 		return
 	}
@@ -923,8 +988,37 @@ func TestCheck(t *testing.T) {
 		},
 	})
 	c.Extra("flag_deviation_bounds", ks)
+	runUnimplementedPart(t, c, full)
 	runIdentityPart(t, c)
 	c.Finish()
+}
+
+// runUnimplementedPart: the same enumeration and the same reference predicate for registrations whose AuthMethod()
+// is outside the constants the library implements (enum members the library has no code for, and the empty string).
+// quick: the two groups of the main part (full registration x presentation x operation x router with at most one of
+// {six flags, channel} deviating; all 64 flag combinations at the all-grants web registration). thorough: the full
+// product with the parameter channel x at most two of the six flags switched off (the main part's thorough tier has
+// all 64; the flags interact with the auth method only through the post / private_key_jwt branches, which an
+// unimplemented method never takes).
+func runUnimplementedPart(t *testing.T, c *engine.Check, full bool) {
+	sp := buildSpace(full, unimplNames())
+	main := []string{"method", "grants", "app", "keys", "pres", "op", "router"}
+	flags := []string{"post", "jwt", "refresh", "capcc", "capte", "capdev"}
+	groups := [][]string{main, append([]string{"method", "pres", "op", "router"}, flags...)}
+	ks := []int{1, 0}
+	if c.Thorough() {
+		groups, ks = [][]string{append(slices.Clone(main), "channel")}, []int{2}
+	}
+	c.RunE1(engine.E1{
+		Part:   "unimplemented-auth-method",
+		Space:  sp,
+		Groups: groups,
+		Ks:     ks,
+		NewWorker: func(int) func(engine.Vec) engine.Result {
+			w := &worker{t: t, sp: sp, rigs: map[int]*rig.Rig{}}
+			return w.run
+		},
+	})
 }
 
 // C05_TRACE="<rule>|<outcome>" prints the first case with that pair (triage aid only).
